@@ -20,6 +20,50 @@ pub struct RangeArg {
     pub native: bool,
 }
 
+/// A RangeBounds value that is not idempotent: what `start_bound` / `end_bound` answer depends on how often they
+/// have been asked (safe code can do this; a container must not become unsound or lose elements over it).
+pub struct Shifty {
+    pub start: Bound<usize>,
+    pub end: Bound<usize>,
+    pub mode: u8,
+    pub calls: std::cell::Cell<u32>,
+}
+impl Shifty {
+    fn real(&self) -> bool {
+        let c = self.calls.get();
+        self.calls.set(c + 1);
+        match self.mode % 3 {
+            0 => c >= 2,
+            1 => c < 2,
+            _ => c % 2 == 1,
+        }
+    }
+}
+impl std::ops::RangeBounds<usize> for Shifty {
+    fn start_bound(&self) -> Bound<&usize> {
+        if self.real() {
+            match &self.start {
+                Bound::Included(a) => Bound::Included(a),
+                Bound::Excluded(a) => Bound::Excluded(a),
+                Bound::Unbounded => Bound::Unbounded,
+            }
+        } else {
+            Bound::Unbounded
+        }
+    }
+    fn end_bound(&self) -> Bound<&usize> {
+        if self.real() {
+            match &self.end {
+                Bound::Included(a) => Bound::Included(a),
+                Bound::Excluded(a) => Bound::Excluded(a),
+                Bound::Unbounded => Bound::Unbounded,
+            }
+        } else {
+            Bound::Unbounded
+        }
+    }
+}
+
 macro_rules! with_range {
     ($r:expr, |$x:ident| $body:expr) => {{
         let r: RangeArg = $r;
@@ -288,6 +332,9 @@ pub trait Deq<T>: Any {
     fn range(&self, r: RangeArg) -> Iter<'_, T>;
     fn range_mut(&mut self, r: RangeArg) -> IterMut<'_, T>;
     fn drain<'a>(&'a mut self, r: RangeArg) -> Box<dyn DrainDyn<T> + 'a>;
+    /// drain (0) / range_mut (1) / range (2) with bounds that change between calls; returns what the view yielded
+    /// (by value for the drain, as addresses otherwise)
+    fn shifty(&mut self, r: RangeArg, mode: u8, which: u8) -> (Vec<T>, Vec<usize>);
 
     fn push_back(&mut self, x: T) -> Option<T>;
     fn push_front(&mut self, x: T) -> Option<T>;
@@ -421,6 +468,14 @@ where
     }
     fn range_mut(&mut self, r: RangeArg) -> IterMut<'_, T> {
         with_range!(r, |x| CircularBuffer::range_mut(self, x))
+    }
+    fn shifty(&mut self, r: RangeArg, mode: u8, which: u8) -> (Vec<T>, Vec<usize>) {
+        let sh = Shifty { start: r.start, end: r.end, mode, calls: std::cell::Cell::new(0) };
+        match which % 3 {
+            0 => (CircularBuffer::drain(self, sh).collect(), Vec::new()),
+            1 => (Vec::new(), CircularBuffer::range_mut(self, sh).map(|t| t as *mut T as usize).collect()),
+            _ => (Vec::new(), CircularBuffer::range(self, sh).map(|t| t as *const T as usize).collect()),
+        }
     }
     fn drain<'a>(&'a mut self, r: RangeArg) -> Box<dyn DrainDyn<T> + 'a> {
         with_range!(r, |x| Box::new(CircularBuffer::drain(self, x)))
@@ -632,6 +687,7 @@ macro_rules! dispatch_cap {
             255 => { const $N: usize = 255; $body }
             256 => { const $N: usize = 256; $body }
             1000 => { const $N: usize = 1000; $body }
+            2048 => { const $N: usize = 2048; $body }
             _ => $else,
         }
     };
